@@ -263,7 +263,39 @@ def run(ctx):
                     del a5["particle"][k]
         if n_over:
             a5["particle"]["$include"] = "res_inc5"
-            alias_check("$include + local override", a5, share={"res_inc5": inc5})
+            inc5_before = copy.deepcopy(inc5)
+            share5 = {"res_inc5": inc5}
+            alias_check("$include + local override", a5, share=share5)
+            # history: ANOTHER configuration that includes the same in-memory table without overriding anything (the baseline beside a
+            # hypothesis, the second member of a MultiConfig), loaded with the same share_dict object afterwards, must be the model of the
+            # table as it was defined
+            try:
+                a6 = copy.deepcopy(card["config"])
+                for k in list(a6["particle"]):
+                    if k in inc5:
+                        del a6["particle"][k]
+                a6["particle"]["$include"] = "res_inc5"
+                with contextlib.redirect_stdout(io.StringIO()):
+                    from tf_pwa.config_loader import ConfigLoader
+
+                    try:
+                        c_ref = ConfigLoader(copy.deepcopy(a6), share_dict={"res_inc5": copy.deepcopy(inc5_before)})
+                        c_ref.get_amplitude()
+                    except RuntimeError:
+                        # the table as defined (flipped parities, shifted masses) need not describe an allowed decay: nothing to compare
+                        ctx.count("shared_table_history_skipped(table alone gives no chain)")
+                        raise StopIteration
+                    c_after = ConfigLoader(copy.deepcopy(a6), share_dict=share5)
+                    c_after.get_amplitude()
+                fa_, fr_ = fingerprint(c_after), fingerprint(c_ref)
+                diff6 = [k for k in ("chains", "param_names", "free", "bounds", "ties", "gauss", "qn") if fa_[k] != fr_[k]]
+                ctx.check("alias form equivalent", not diff6 and inc5 == inc5_before,
+                          lambda: dict(desc(), differing=diff6, shared_table_modified=inc5 != inc5_before, table_before=inc5_before, table_after=inc5),
+                          mechanism="$include of a shared in-memory table after another configuration overrode its entries locally")
+            except StopIteration:
+                pass
+            except Exception as e:
+                ctx.violation("alias form equivalent", ctx.exc_witness(e, **desc()), mechanism="alias form raises: shared table history")
         # candidate lists vs expanded decay lists
         a4 = copy.deepcopy(card["config"])
         slots = {k: v for k, v in a4["particle"].items() if isinstance(v, list)}
